@@ -120,7 +120,7 @@ func zzC05_stream() {
 			start = ends[i-1]
 		}
 		own := ends[i] - start
-		vAssert(e2 == nil && len(out) == 20+paddedLen(own-20), "message carries exactly its own bytes")
+		vAssert(e2 == nil && len(out) == 20+(own-20+3)&^3, "message carries exactly its own bytes")
 		for j := range out {
 			if j >= 1 && j <= 3 {
 				continue // the re-serialised length field counts the padding the peer left out
